@@ -180,6 +180,229 @@ def gen_cases(rng, count, big=False):
     return cases
 
 
+def small_graphs(max_dom=3, max_img=3, max_adj=4):
+    """all (n_img, adj) with <= max_dom domain nodes, <= max_img image nodes and <= max_adj adjacencies"""
+    import itertools
+    out = []
+    for d in range(max_dom + 1):
+        for m in range(max_img + 1):
+            for k in range(max_adj + 1):
+                if k > 0 and (d == 0 or m == 0):
+                    continue
+                # compositions of k into d row lengths
+                def comps(k, d):
+                    if d == 0:
+                        if k == 0:
+                            yield ()
+                        return
+                    for a in range(k + 1):
+                        for r in comps(k - a, d - 1):
+                            yield (a,) + r
+                for lens in comps(k, d):
+                    for flat in itertools.product(range(m), repeat=k):
+                        adj, pos = [], 0
+                        for ln in lens:
+                            adj.append(list(flat[pos:pos + ln]))
+                            pos += ln
+                        out.append((m, adj))
+    return out
+
+
+def exhaustive_render_cases(quick):
+    """goal: no luck needed for the kernels - every small graph through every render type, single and composite"""
+    out = []
+    singles = small_graphs(3, 3, 3 if quick else 4)
+    for (m, adj) in singles:
+        for rt in range(8):
+            out.append("render %d %s" % (rt, fmt_graph(m, adj)))
+        out.append("degree %s" % fmt_graph(m, adj))
+        out.append("ctor %d %s" % (len(out) % 5, fmt_graph(m, adj)))
+        if adj:
+            out.append("sort %s" % fmt_graph(m, adj))
+    # composite: every pair (a, b) of small graphs with matching dimension and <= 3 (thorough: 4) adjacencies in total
+    tot = 3 if quick else 4
+    G = small_graphs(3, 3, tot)
+    byd = {}
+    for (m, adj) in G:
+        byd.setdefault(len(adj), []).append((m, adj, sum(map(len, adj))))
+    for (am, a) in G:
+        if not a:
+            continue
+        ka = sum(map(len, a))
+        for (bm, b, kb) in byd.get(am, []):
+            if ka + kb > tot:
+                continue
+            for rt in range(8):
+                out.append("render2 %d %s %s" % (rt, fmt_graph(am, a), fmt_graph(bm, b)))
+            # the lazy CompositeAdjactor iterator (while F-C19-5 is open only where image_begin lands on a non-empty
+            # list, see C19.compositeIterator_empty_head for the excluded shape)
+            if compit_defined(a, b):
+                out.append("adjcomp %s %s" % (fmt_graph(am, a), fmt_graph(bm, b)))
+                out.append("adjrender %d %s %s" % ((len(out) // 3) % 8, fmt_graph(am, a), fmt_graph(bm, b)))
+    return out
+
+
+def exhaustive_symmetric_cases(quick):
+    """all undirected simple graphs with <= 5 (quick: 4) nodes: both colouring constructors, all 18 CM options"""
+    import itertools
+    out = []
+    for n in range(1, (4 if quick else 5) + 1):
+        pairs = [(i, j) for i in range(n) for j in range(i + 1, n)]
+        for bits in range(1 << len(pairs)):
+            adj = [[] for _ in range(n)]
+            for b, (i, j) in enumerate(pairs):
+                if bits >> b & 1:
+                    adj[i].append(j)
+                    adj[j].append(i)
+            g = fmt_graph(n, adj)
+            out.append("color %s" % g)
+            orders = [list(range(n)), list(reversed(range(n))), [(3 * i + 1) % n for i in range(n)] if n in (2, 4, 5) else list(range(n))]
+            for o in orders[:(2 if quick else 3)]:
+                out.append("colororder %s %s" % (g, fmt_list(o)))
+            for rev in range(2):
+                for rt in range(3):
+                    for st in range(3):
+                        out.append("cm %d %d %d %s" % (rev, rt, st, g))
+    return out
+
+
+def gen_dyn_script(rng, n_dom, n_img):
+    toks = []
+    for _ in range(rng.randrange(1, 25)):
+        k = rng.random()
+        if n_dom == 0 or n_img == 0:
+            k = 0.9 + 0.1 * k
+        if k < 0.45:
+            toks += ["i", str(rng.randrange(n_dom)), str(rng.randrange(n_img))]
+        elif k < 0.6:
+            toks += ["e", str(rng.randrange(n_dom)), str(rng.randrange(n_img))]
+        elif k < 0.75:
+            toks += ["x", str(rng.randrange(n_dom)), str(rng.randrange(n_img))]
+        elif k < 0.8:
+            toks += ["g"]
+        elif k < 0.9:
+            toks += ["r", str(rng.randrange(8))]
+        elif k < 0.95:
+            toks += ["l"]
+        else:
+            toks += ["c"] if rng.random() < 0.3 else ["g"]
+    toks += ["g", "r", "0"]
+    return " ".join(toks)
+
+
+def gen_api_cases(rng, count):
+    """second API layer: degree, constructors/clone, permute_indices, Coloring ctors, DynamicGraph, adjactors, more
+    permutation algebra"""
+    cases = []
+    for _ in range(count):
+        k = rng.random()
+        if k < 0.10:
+            n_img, adj = gen_graph(rng)
+            cases.append("degree %s" % fmt_graph(n_img, adj))
+        elif k < 0.20:
+            n_img, adj = gen_graph(rng)
+            kind = rng.randrange(5)
+            cases.append("ctor %d %s" % (kind, fmt_graph(n_img, adj)))
+        elif k < 0.28:
+            # permute_indices: the code requires #indices == size of the permutation; a graph whose rows partition
+            # the image set (like the patches-at-rank graph that uses it) meets that
+            n_img = rng.choice([1, 2, 3, 5, 8])
+            n_dom = rng.choice([1, 2, 3, 4])
+            idx = list(range(n_img))
+            rng.shuffle(idx)
+            if rng.random() < 0.4:
+                idx = [rng.randrange(n_img) for _ in range(n_img)]
+            cuts = sorted(rng.randrange(n_img + 1) for _ in range(n_dom - 1))
+            adj = [idx[a:b] for a, b in zip([0] + cuts, cuts + [n_img])]
+            cases.append("gpermidx %s %s" % (fmt_graph(n_img, adj), fmt_list(rand_perm(rng, n_img))))
+        elif k < 0.36:
+            n = rng.choice([1, 2, 3, 4, 5, 8, 13])
+            cases.append("permx %s" % fmt_list(structured_perm(rng, n) if rng.random() < 0.5 else rand_perm(rng, n)))
+        elif k < 0.46:
+            n = rng.choice([0, 1, 2, 3, 5, 9])
+            style = rng.random()
+            if style < 0.4:
+                col = [rng.randrange(max(1, n)) for _ in range(n)]
+            elif style < 0.7:
+                col = [rng.choice([0, 3, 7, 1000000]) for _ in range(n)]
+            else:
+                col = list(range(n))
+                rng.shuffle(col)
+            cases.append("colorctor %d %d %s" % (rng.randrange(3), rng.randrange(12), fmt_list(col)))
+        elif k < 0.66:
+            n_dom, n_img = rng.choice([0, 1, 2, 3, 5]), rng.choice([0, 1, 2, 4, 6])
+            cases.append("dyn %d %d %s" % (n_img, n_dom, gen_dyn_script(rng, n_dom, n_img)))
+        elif k < 0.82:
+            kind = rng.choice([1, 2, 3])
+            a_img, a = gen_graph(rng, max_n=8)
+            line = "dynrender %d %d %s" % (kind, rng.randrange(8), fmt_graph(a_img, a))
+            if kind != 1:
+                rt = int(line.split()[2])
+                need = len(a) if (kind == 3 and rt >= 4) else a_img
+                b_img, b = gen_graph(rng, n_dom=need, max_n=8)
+                line += " " + fmt_graph(b_img, b)
+            cases.append(line)
+        else:
+            a_img, a = gen_graph(rng, max_n=8)
+            b_img, b = gen_graph(rng, n_dom=a_img + rng.choice([0, 0, 0, 1, 2]), max_n=8)
+            # image_begin must not land on an empty adjactor-2 list (C19.compositeIterator_empty_head)
+            if not COMPIT_FIXED:
+                a = [l if (not l or b[l[0]]) else [] for l in a]
+            if rng.random() < 0.5:
+                cases.append("adjcomp %s %s" % (fmt_graph(a_img, a), fmt_graph(b_img, b)))
+            else:
+                cases.append("adjrender %d %s %s" % (rng.randrange(8), fmt_graph(a_img, a), fmt_graph(b_img, b)))
+    return cases
+
+
+def randperm_cases(binary, rng, count):
+    """`Permutation(n, Random&)`: a pre-pass asks the library for the swap array it draws (op randswap); the case
+    line repeats it so that the model (which has no RNG) can rebuild the permutation from it"""
+    pre = []
+    for _ in range(count):
+        pre.append("randswap %d %d" % (rng.choice([1, 2, 3, 4, 5, 8, 17, 64]), rng.randrange(1, 1 << 40)))
+    outs = vlib.run_lines([binary], pre)
+    cases = []
+    for line, o in zip(pre, outs):
+        t = o.split()
+        if not t or not t[0].isdigit():
+            cases.append("randperm %s 0" % line.split(None, 1)[1])   # abnormal outcome: let the stream report it
+        else:
+            cases.append("randperm %s %s" % (line.split(None, 1)[1], o))
+    return cases
+
+
+# open findings of this property (FINDINGS_C19.md); the exact reproducers are replayed while the finding is open
+# (-> KNOWN-FINDING line) and become ordinary corpus cases once it is marked fixed in KNOWN_FINDINGS.json
+FINDING_CASES = {
+    "c19-compit-empty-head": ["adjcomp 1 1 1 0 0 1 0", "adjcomp 2 1 2 1 0 1 2 1 0 0", "adjrender 0 2 1 1 0 1 2 0 0",
+                              "adjcomp 2 3 4 1 1 0 1 0 2 1 0 2 2 0 2 1 0"],
+    "c19-permute-indices-size": ["gpermidx 3 1 2 0 2 3 1 2 0", "gpermidx 2 1 3 0 1 1 2 1 0"],
+    "c19-concat-aliased": ["permself 3 1 2 0", "permself 4 1 0 3 2"],
+}
+
+
+def finding_status(sig):
+    """'open' | 'fixed' | None (not recorded) from KNOWN_FINDINGS.json"""
+    p = os.path.join(vlib.VERIF, "KNOWN_FINDINGS.json")
+    try:
+        data = json.load(open(p))
+    except Exception:
+        return None
+    for e in data.get("findings", []):
+        if e.get("property") == PROP and e.get("signature") == sig:
+            return e.get("status")
+    return None
+
+
+COMPIT_FIXED = finding_status("c19-compit-empty-head") == "fixed"
+
+
+def compit_defined(a, b):
+    """image_begin of every domain node lands on a non-empty adjactor-2 list (or adjactor 1 has no image)"""
+    return COMPIT_FIXED or all((not l) or b[l[0]] for l in a)
+
+
 CORPUS = [
     # past findings (F1, F2, F15), replayed first on every run
     "cm 0 0 0 4 4 2 1 2 1 0 1 0 0",
@@ -194,12 +417,26 @@ CORPUS = [
     "cm 1 1 1 2 2 3 1 1 1 3 0 0 0",
     # concat whose second factor fixes a tail (stale swap array if only a prefix is rebuilt)
     "concat 4 2 3 0 1 4 0 1 3 2",
+    # extension round: composite kernels with a repeated image across two adjactor-1 images (mask must survive the
+    # inner loop and be reset between domain nodes), pointer bump across several domain nodes
+    "render2 2 2 2 2 0 1 2 0 1 2 2 2 0 1 2 1 0",
+    "render2 6 2 2 2 0 1 2 0 1 2 2 2 0 1 2 1 0",
+    "render2 4 2 3 2 0 1 1 1 2 1 0 3 2 2 2 2 2 0 2",
+    "render 6 2 3 2 1 1 2 1 0 1 1",
+    "adjcomp 3 2 3 0 1 2 1 2 2 3 1 1 0 2 0 1",
+    "dyn 3 2 i 0 2 i 0 1 i 0 2 x 0 1 e 0 1 e 0 1 g r 0 l r 4 c g",
+    "colorctor 0 0 4 0 5 5 2",
+    "permx 3 1 2 0",
 ]
 
 
 # ---------------------------------------------------------------------------------------------
 # independent oracle (set / multiset reference; judges the impl output against the property text)
 # ---------------------------------------------------------------------------------------------
+
+class ObserverError(Exception):
+    pass
+
 
 class Tk:
     def __init__(self, s):
@@ -227,6 +464,17 @@ class Tk:
         ptr = self.lst()
         idx = self.lst()
         adj = [idx[ptr[i]:ptr[i + 1]] for i in range(len(ptr) - 1)]
+        # scalar observers printed with every graph
+        assert self.tok() == "Q"
+        n_dom, n_idx, deg, degs = self.nat(), self.nat(), self.nat(), self.lst()
+        if n_dom != len(ptr) - 1:
+            raise ObserverError("get_num_nodes_domain() = %d for a pointer vector of %d entries" % (n_dom, len(ptr)))
+        if n_idx != len(idx):
+            raise ObserverError("get_num_indices() = %d for %d indices" % (n_idx, len(idx)))
+        if degs != [ptr[i + 1] - ptr[i] for i in range(n_dom)]:
+            raise ObserverError("degree(i) = %s is not the length of the adjacency lists %s" % (degs, adj))
+        if deg != max(degs + [0]):
+            raise ObserverError("degree() = %d is not the maximum node degree of %s" % (deg, degs))
         return n_img, ptr, idx, adj
 
 
@@ -244,18 +492,74 @@ def check_graph_struct(n_img, ptr, idx, n_dom_expected):
     return None
 
 
+def cm_layers_check(adj, rev, perm, layers):
+    """consecutive layer offsets delimit the BFS levels of each component (levels of a component in reverse order
+    when the ordering is reversed)"""
+    n = len(adj)
+    if len(layers) < 2 or layers[-2] != n:
+        return "layers: terminator missing: %s" % layers
+    segs = [perm[layers[i]:layers[i + 1]] for i in range(len(layers) - 2)]
+    if any(len(sg) == 0 for sg in segs):
+        return "layers: empty BFS level: %s" % layers
+    # independent component labelling (reachability in the undirected sense = in the BFS sense for symmetric graphs)
+    comp = list(range(n))
+
+    def find(x):
+        while comp[x] != x:
+            comp[x] = comp[comp[x]]
+            x = comp[x]
+        return x
+    for i, l in enumerate(adj):
+        for j in l:
+            comp[find(i)] = find(j)
+    # group consecutive segments by component
+    groups = []
+    for sg in segs:
+        cs = {find(x) for x in sg}
+        if len(cs) != 1:
+            return "layers: level %s spans several components" % sg
+        cid = cs.pop()
+        if groups and groups[-1][0] == cid:
+            groups[-1][1].append(sg)
+        else:
+            if any(g[0] == cid for g in groups):
+                return "layers: component numbered in two pieces"
+            groups.append((cid, [sg]))
+    for cid, lv in groups:
+        if rev:
+            lv = lv[::-1]
+        if len(lv[0]) != 1:
+            return "layers: component does not start with a single root level: %s" % lv
+        seen = set(lv[0])
+        for k in range(1, len(lv) + 1):
+            nxt = {j for x in lv[k - 1] for j in adj[x] if j not in seen}
+            got = lv[k] if k < len(lv) else []
+            if len(set(got)) != len(got) or set(got) != nxt:
+                return "layers: level %s is not the set of new neighbours %s of level %s" % (got, sorted(nxt), lv[k - 1])
+            seen |= nxt
+    return None
+
+
+def canon(out):
+    if out.startswith("ABORT"):
+        return "ABORT"
+    if out.startswith("EXC:"):
+        return "EXC"
+    return out
+
+
 def oracle(case, out):
     c = Tk(case)
     op = c.tok()
     try:
-        if op in ("render", "render2"):
+        if op in ("render", "render2", "adjrender"):
             rt = c.nat()
             if op == "render":
                 n_img, adj = c.graph_in()
             else:
                 a_img, a = c.graph_in()
                 n_img, b = c.graph_in()
-                if a_img != len(b):
+                if (a_img != len(b)) if op == "render2" else (a_img > len(b)):
                     return None if out.startswith("ABORT") else "dimension mismatch not reported"
                 adj = [[k for j in l for k in b[j]] for l in a]
             if is_abnormal(out):
@@ -399,6 +703,201 @@ def oracle(case, out):
                     if l != [j for j in range(len(col)) if col[j] == cidx]:
                         return "partition graph row %d wrong" % cidx
             return None
+        if op == "degree":
+            n_img, adj = c.graph_in()
+            if is_abnormal(out):
+                return "degree ended with " + out
+            o = Tk(out)
+            assert o.tok() == "D"
+            deg, degs = o.nat(), o.lst()
+            if degs != [len(l) for l in adj]:
+                return "degree(i) is not the number of adjacencies of node i"
+            if deg != max([len(l) for l in adj] + [0]):
+                return "degree() is not the maximum node degree"
+            return None
+        if op == "ctor":
+            kind = c.nat()
+            n_img, adj = c.graph_in()
+            if is_abnormal(out):
+                return "graph constructor/clone ended with " + out
+            if kind == 3:
+                return None if out == "G 0 0 0" else "clone of an empty graph is not empty"
+            r_img, ptr, idx, radj = Tk(out).graph_out()
+            e = check_graph_struct(r_img, ptr, idx, len(adj))
+            if e:
+                return e
+            if radj != adj or r_img != n_img:
+                return "constructed/cloned graph differs from its input arrays"
+            return None
+        if op == "gpermidx":
+            n_img, adj = c.graph_in()
+            ip = c.lst()
+            if sum(map(len, adj)) == 0:
+                return None if out.startswith("ABORT") else "permute_indices on a graph without indices did not assert"
+            if is_abnormal(out):
+                return "permute_indices (permutation of the %d image nodes, %d indices) ended with %s" % (
+                    n_img, sum(map(len, adj)), out)
+            r_img, ptr, idx, radj = Tk(out).graph_out()
+            if radj != [[ip[k] for k in l] for l in adj] or r_img != n_img:
+                return "permute_indices did not relabel the image indices"
+            return None
+        if op == "randperm":
+            n, seed, sw = c.nat(), c.nat(), c.lst()
+            if is_abnormal(out):
+                return "random permutation constructor ended with " + out
+            o = Tk(out)
+            assert o.tok() == "P"
+            perm, swap = o.lst(), o.lst()
+            if len(perm) != n or len(swap) != n:
+                return "random permutation has the wrong length"
+            if any(not (i <= swap[i] < n) for i in range(n)) or swap[n - 1] != n - 1:
+                return "random swap array out of range"
+            if sorted(perm) != list(range(n)):
+                return "random permutation is not a bijection"
+            x = list(range(n))
+            for i in range(n - 1):
+                x[i], x[swap[i]] = x[swap[i]], x[i]
+            if x != perm:
+                return "random permutation: swap array does not realise the permutation array"
+            return None
+        if op == "permx":
+            p = c.lst()
+            n = len(p)
+            if is_abnormal(out):
+                return "permutation algebra ended with " + out
+            o = Tk(out)
+            assert o.tok() == "X"
+            got = []
+            for _ in range(4):
+                assert o.tok() == "P"
+                got.append((o.lst(), o.lst()))
+            exp = [p, p, [p[p[i]] for i in range(n)], list(range(n))]
+            names = ["inverse of inverse", "clone", "concat with itself", "concat with own inverse"]
+            for (perm, swap), e, nm in zip(got, exp, names):
+                if perm != e:
+                    return "%s: %s, expected %s" % (nm, perm, e)
+                x = list(range(n))
+                for i in range(n - 1):
+                    if not (i <= swap[i] < n):
+                        return "invalid swap position"
+                    x[i], x[swap[i]] = x[swap[i]], x[i]
+                if x != perm:
+                    return "%s: swap array does not realise the permutation" % nm
+            return None
+        if op == "permself":
+            p = c.lst()
+            if is_abnormal(out):
+                return "p.concat(p) ended with " + out
+            o = Tk(out)
+            assert o.tok() == "P"
+            perm = o.lst()
+            if perm != [p[p[i]] for i in range(len(p))]:
+                return "p.concat(p) = %s is not p o p = %s" % (perm, [p[p[i]] for i in range(len(p))])
+            return None
+        if op == "colorctor":
+            kind, nc, col = c.nat(), c.nat(), c.lst()
+            if is_abnormal(out):
+                return "Coloring constructor ended with " + out
+            o = Tk(out)
+            assert o.tok() == "K"
+            k, mx, rcol = o.nat(), o.nat(), o.lst()
+            if rcol != col:
+                return "Coloring constructor changed the colouring array"
+            if k != (nc if kind == 1 else len(set(col))):
+                return "num_colors %d is not the number of distinct colours" % k
+            if mx != (k - 1) % (1 << 64):
+                return "get_max_color is not num_colors - 1"
+            return None
+        if op == "adjcomp":
+            a_img, a = c.graph_in()
+            b_img, b = c.graph_in()
+            if a_img > len(b):
+                return None if out.startswith("ABORT") else "ill-formed composite adjactor not reported"
+            if is_abnormal(out):
+                return "composite adjactor iteration ended with " + out
+            o = Tk(out)
+            assert o.tok() == "J"
+            if (o.nat(), o.nat()) != (len(a), b_img):
+                return "composite adjactor has wrong dimensions"
+            for i, l in enumerate(a):
+                if o.lst() != [k for j in l for k in b[j]]:
+                    return "composite adjactor: images of node %d are not the concatenated lists" % i
+            return None
+        if op == "dyn":
+            n_img, n_dom = c.nat(), c.nat()
+            rows = [set() for _ in range(n_dom)]
+            if is_abnormal(out):
+                return "DynamicGraph script ended with " + out
+            o = Tk(out)
+            assert o.tok() == "Y"
+            while c.p < len(c.t):
+                k = c.tok()
+                if k in ("i", "e", "x"):
+                    d, im = c.nat(), c.nat()
+                    had = im in rows[d]
+                    r = o.nat()
+                    if k == "i":
+                        rows[d].add(im)
+                        exp = 0 if had else 1
+                    elif k == "e":
+                        rows[d].discard(im)
+                        exp = 1 if had else 0
+                    else:
+                        exp = 1 if had else 0
+                    if r != exp:
+                        return "DynamicGraph %s(%d,%d) returned %d" % ({"i": "insert", "e": "erase", "x": "exists"}[k], d, im, r)
+                elif k == "c":
+                    assert o.tok() == "c"
+                    rows = [set() for _ in range(n_dom)]
+                elif k == "l":
+                    assert o.tok() == "l"
+                elif k == "g":
+                    deg, nidx, degs = o.nat(), o.nat(), o.lst()
+                    if degs != [len(r) for r in rows] or deg != max([len(r) for r in rows] + [0]) or nidx != sum(len(r) for r in rows):
+                        return "DynamicGraph degree/num_indices wrong"
+                elif k == "r":
+                    rt = c.nat()
+                    r_img, ptr, idx, radj = o.graph_out()
+                    if rt < 4:
+                        exp, e_img = [sorted(r) for r in rows], n_img
+                    else:
+                        exp, e_img = [[j for j in range(n_dom) if i in rows[j]] for i in range(n_img)], n_dom
+                    e = check_graph_struct(r_img, ptr, idx, len(exp))
+                    if e:
+                        return "DynamicGraph render: " + e
+                    if radj != exp or r_img != e_img:
+                        return "DynamicGraph render %d: %s, expected %s" % (rt, radj, exp)
+            return None
+        if op == "dynrender":
+            kind, rt = c.nat(), c.nat()
+            a_img, a = c.graph_in()
+            tr = rt >= 4
+            if kind == 1:
+                rel, dims = {(i, k) for i, l in enumerate(a) for k in l}, (len(a), a_img)
+            else:
+                b_img, b = c.graph_in()
+                if kind == 2:
+                    if a_img != len(b):
+                        return None if out.startswith("ABORT") else "dimension mismatch not reported"
+                    rel, dims = {(i, k) for i, l in enumerate(a) for j in l for k in b[j]}, (len(a), b_img)
+                else:
+                    first = {(k, i) for i, l in enumerate(a) for k in l} if tr else {(i, k) for i, l in enumerate(a) for k in l}
+                    fd = (a_img, len(a)) if tr else (len(a), a_img)
+                    if fd[1] != len(b):
+                        return None if out.startswith("ABORT") else "dimension mismatch not reported"
+                    rel, dims, tr = {(i, k) for (i, j) in first for k in b[j]}, (fd[0], b_img), False
+            if tr:
+                rel, dims = {(k, i) for (i, k) in rel}, (dims[1], dims[0])
+            if is_abnormal(out):
+                return "DynamicGraph render constructor ended with " + out
+            r_img, ptr, idx, radj = Tk(out).graph_out()
+            e = check_graph_struct(r_img, ptr, idx, dims[0])
+            if e:
+                return e
+            exp = [sorted(k for (i2, k) in rel if i2 == i) for i in range(dims[0])]
+            if radj != exp or r_img != dims[1]:
+                return "DynamicGraph render constructor: %s, expected %s" % (radj, exp)
+            return None
         if op == "cm":
             rev, rt, st = c.nat(), c.nat(), c.nat()
             n_img, adj = c.graph_in()
@@ -420,7 +919,9 @@ def oracle(case, out):
                 return "swap array does not realise the ordering"
             if layers[0] != 0 or layers[-1] != n or any(layers[i] > layers[i + 1] for i in range(len(layers) - 1)):
                 return "layer offsets malformed: %s" % layers
-            return None
+            return cm_layers_check(adj, rev, perm, layers)
+    except ObserverError as e:
+        return "graph observer: %s" % e
     except (IndexError, ValueError, AssertionError) as e:
         return "unparsable implementation output (%s): %s" % (e, out[:200])
     return None
@@ -429,8 +930,12 @@ def oracle(case, out):
 def nontrivial(case):
     c = Tk(case)
     op = c.tok()
-    if op in ("perm", "apply", "concat", "inverse"):
+    if op in ("perm", "apply", "concat", "inverse", "permx", "randperm", "colorctor", "dyn"):
         return len(case.split()) > 6
+    if op in ("ctor", "dynrender"):
+        return len(case.split()) > 8
+    if op in ("adjcomp", "adjrender", "gpermidx", "degree"):
+        return len(case.split()) > 7
     try:
         if op in ("render", "render2"):
             c.nat()
@@ -450,8 +955,10 @@ def nontrivial(case):
 def describe(case):
     t = case.split()
     keys = ["op:" + t[0]]
-    if t[0] in ("render", "render2"):
+    if t[0] in ("render", "render2", "adjrender"):
         keys.append("rt:" + t[1])
+    if t[0] in ("ctor", "colorctor", "dynrender"):
+        keys.append("%s-kind:%s" % (t[0], t[1]))
     if t[0] == "cm":
         keys.append("cm-opt:%s%s%s" % (t[1], t[2], t[3]))
     return keys
@@ -459,6 +966,28 @@ def describe(case):
 
 def signature(case, out, why):
     t = case.split()
+    if why is not None:
+        if t[0] in ("adjcomp", "adjrender"):
+            c = Tk(case)
+            c.tok()
+            if t[0] == "adjrender":
+                c.nat()
+            try:
+                a_img, a = c.graph_in()
+                b_img, b = c.graph_in()
+                if a_img <= len(b) and any(l and not b[l[0]] for l in a):
+                    return "c19-compit-empty-head"
+            except Exception:
+                pass
+        if t[0] == "gpermidx" and out.startswith("ABORT"):
+            c = Tk(case)
+            c.tok()
+            n_img, adj = c.graph_in()
+            ip = c.lst()
+            if len(ip) == n_img and 0 < sum(map(len, adj)) != n_img:
+                return "c19-permute-indices-size"
+        if t[0] == "permself":
+            return "c19-concat-aliased"
     return "%s:%s" % (t[0], (why or "")[:40])
 
 
@@ -475,15 +1004,37 @@ def main(argv):
     if args.replay:
         cases = [json.load(open(args.replay))["input"]]
     else:
-        cases = CORPUS + exhaustive_perm_cases() + (gen_cases(rng, 3000) if args.tier == "quick" else gen_cases(rng, 150000, big=True))
+        quick = args.tier == "quick"
+        fixed = [cs for sig, css in FINDING_CASES.items() if finding_status(sig) == "fixed" for cs in css]
+        cases = CORPUS + fixed + exhaustive_perm_cases() + (gen_cases(rng, 3000) if quick else gen_cases(rng, 150000, big=True))
+        cases += gen_api_cases(rng, 2500 if quick else 60000)
+        cases += randperm_cases(binary, rng, 200 if quick else 5000)
     st = vlib.Stream("adjacency", cases, [binary], vlib.driver_cmd(PROP), oracle=oracle, nontrivial=nontrivial,
-                     describe=describe, signature=signature)
+                     describe=describe, signature=signature, canon=canon)
+    streams = [st]
+    if not args.replay:
+        kf = [cs for sig, css in FINDING_CASES.items() if finding_status(sig) == "open" for cs in css]
+        if kf:
+            streams.append(vlib.Stream("open-findings", kf, [binary], vlib.driver_cmd(PROP), oracle=oracle,
+                                       signature=signature, canon=canon, env={"VERIF_CASE_TIMEOUT": "3"}))
+        ex = exhaustive_render_cases(quick) + exhaustive_symmetric_cases(quick)
+        streams.append(vlib.Stream("small-scope", ex, [binary], vlib.driver_cmd(PROP), oracle=oracle,
+                                   nontrivial=nontrivial, describe=describe, signature=signature, canon=canon))
     stats_rule = ("random graphs (domain/image 0..14, empty lists, duplicates, isolated nodes, several components), "
                   "permutations of length 1..64 through every constructor, all 8 render types x single/composite, "
-                  "colouring with/without order, CM with all 2x3x3 options; non-trivial = duplicates, an empty "
+                  "colouring with/without order, CM with all 2x3x3 options (layers checked as BFS levels); Graph::degree, "
+                  "Copy-Array/Copy-Vector/clone/move, permute_indices, Permutation(n,Random&), inverse.inverse, clone, "
+                  "Coloring array/vector ctors, DynamicGraph scripts and render ctors, CompositeAdjactor iteration; "
+                  "small-scope stream: ALL graphs with <=3x<=3 nodes and <=3 (thorough: 4) adjacencies through all 8 "
+                  "render types, ALL composite pairs with <=3 (4) adjacencies in total through all 8 types, ALL undirected graphs with <=4 (5) "
+                  "nodes through both colouring ctors and all 18 CM options; non-trivial = duplicates, an empty "
                   "adjacency list or >= 2 adjacencies (graphs) / length >= 2 (permutations)")
-    rc = vlib.run_pipeline(PROP, args.tier, args.seed, lean, [st], t0, assumptions=[
+    rc = vlib.run_pipeline(PROP, args.tier, args.seed, lean, streams, t0, assumptions=[
         "Index modelled as unbounded Nat (no 64-bit overflow at the sizes FEAT can allocate)",
-        "std::sort modelled as any sorting function"],
+        "std::sort modelled as any sorting function",
+        "CompositeAdjactor::image_begin is only exercised where the first adjactor-1 image has a non-empty adjactor-2 "
+        "list (otherwise the iterator dereferences an end iterator: theorem C19.compositeIterator_empty_head)",
+        "Permutation::concat is only exercised with distinct objects (p.concat(p) reads overwritten entries)",
+        "Graph::permute_indices is only exercised where #indices == size of the permutation (XASSERT in the source)"],
         extra_cov={"rule": stats_rule})
     return rc
